@@ -71,6 +71,9 @@ class SpartanProtocol(BaseGopherProtocol):
             self.handler.write(self.wfile)
 
     def write_status(self, code: int, meta: str) -> None:
+        # The status is a single line: a selector echoed in an error message
+        # may contain (percent-decoded) CR or LF.
+        meta = re.sub(r"[\r\n]+", " ", meta)
         self.wfile.write(f"{code} {meta}\r\n".encode(errors="backslashreplace"))
 
     def adjust_mimetype(self, mimetype: typing.Optional[str]) -> str:
